@@ -139,6 +139,21 @@ Example C20_status_nv :    (* infos: time|flags; stripe 1 bad, 3 bad+rehash, 4 j
   status_count s 5 = mkcnt 2 1 3 1 4 2 1.
 Proof. reflexivity. Qed.
 
+(* the not-yet-scrubbed count is the number of used stripes with the just-synced flag, whatever the bad and rehash
+   flags say: a stripe recorded bad AND just synced (sync, silent corruption, scrub -p new) counts in both *)
+Theorem C20_status_unscrubbed_ignores_bad : forall s blockmax,
+  c_unscrubbed (status_count s blockmax) =
+  N.of_nat (length (filter (fun i => negb (info_at s i =? 0) && N.testbit (info_at s i) 2) (seq 0 blockmax))).
+Proof. exact status_unscrubbed_ignores_bad. Qed.
+Theorem C20_status_step_bad_justsynced : forall s c i,
+  info_bad (info_at s i) = true -> info_justsynced (info_at s i) = true ->
+  c_unscrubbed (status_step s c i) = c_unscrubbed c + 1 /\ c_bad (status_step s c i) = c_bad c + 1.
+Proof. exact status_step_bad_justsynced. Qed.
+Example C20_status_unscrubbed_nv :    (* all eight flag combinations on stripes 0..7, stripe 8 unused *)
+  let s := mksstate [1600000000; 1600000001; 1600000002; 1600000003; 1600000004; 1600000005; 1600000006; 1600000007; 0] [[1; 1; 1; 1; 1; 1; 1; 1; 0]] in
+  status_count s 9 = mkcnt 4 1 7 4 8 0 4.
+Proof. reflexivity. Qed.
+
 (* --- terminal rendering ----------------------------------------------------------------------------------- *)
 Theorem C20_esc_shell_injective : forall a b, no_nul a -> no_nul b -> esc_shell a = esc_shell b -> a = b.
 Proof. exact esc_shell_injective. Qed.
@@ -197,6 +212,8 @@ Print Assumptions C20_dup_iff_same_hash.
 Print Assumptions C20_dup_iff_equal_content.
 Print Assumptions C20_dup_unhashed_never.
 Print Assumptions C20_status_counters.
+Print Assumptions C20_status_unscrubbed_ignores_bad.
+Print Assumptions C20_status_step_bad_justsynced.
 Print Assumptions C20_esc_shell_injective.
 Print Assumptions C20_term_framing.
 Print Assumptions C20_term_line_framing_refuted.
